@@ -502,7 +502,27 @@ def r18_10(ctx: Ctx) -> None:
     ctx.floor("R18.10", n, 2, "refusals / sanitiser calls in the registration loop")
 
 
+def r18_11(ctx: Ctx) -> None:
+    """every member the extraction processes gets its events, the ones without a stream included: the members handed to the stream-less
+    extract_single call of Worker.extract are ALL members with an empty stream (`[f for f in self.files if f.emptystream]`, one condition) -
+    in every arm, so that a directory of a multi-folder archive is reported like one of a single-folder archive."""
+    f = ctx.prog.func("py7zr", "Worker.extract")
+    comps = [n for n in walk(f.node) if isinstance(n, ast.Assign) and isinstance(n.value, ast.ListComp) and any(
+        isinstance(x, ast.Attribute) and x.attr == "emptystream" for x in ast.walk(n.value))]
+    ctx.floor("R18.11", len(comps), 1, "selection of stream-less members in Worker.extract")
+    for n in comps:
+        g = n.value.generators
+        ok = len(g) == 1 and norm(g[0].iter) == "self.files" and len(g[0].ifs) == 1 and isinstance(g[0].ifs[0], ast.Attribute) and g[0].ifs[0].attr == "emptystream" \
+            and isinstance(n.value.elt, ast.Name)
+        ctx.check(ok, "R18.11", f, n, "all members without a stream are handed to the stream-less pass",
+                  f"`{norm(n)[:100]}` leaves some members without a stream out of the pass that reports them: directory members of an archive with two or more folders get no start / end "
+                  "events while the same members of a one-folder archive do", construct="stream-less members filtered")
+
+
 def run(ctx: Ctx) -> None:
+    r18_11(ctx)
+    from . import c20 as _c20j
+    _c20j.r20_6(ctx)  # every batch of folder tasks is joined before 'post' is queued
     r18_10(ctx)
     r18_9(ctx)
     r18_8(ctx)
